@@ -251,7 +251,17 @@ def reraise_facts(tree):
     if callback:
         need(any(isinstance(n, ast.Assign) and dotted(n.targets[0]) == "isCallback" and isinstance(n.value, ast.Call)
                  and call_name(n.value) == "getattr" for n in ast.walk(second)), "isCallback is not read from the method")
-    return callback, classes, ast_sha(f)
+    # ordering fact: the call context is bound to THIS connection before the target instance is looked up / constructed
+    # (a constructor that tracks a resource must track it on the connection whose request is being served)
+    binds = [n for n in ast.walk(second) if isinstance(n, ast.Assign) and len(n.targets) == 1
+             and dotted(n.targets[0]) == "current_context.client"]
+    need(len(binds) == 1 and dotted(binds[0].value) == f.args.args[1].arg,
+         "Daemon.handleRequest: current_context.client is not bound exactly once to the connection")
+    ctor_calls = [c for c in ast.walk(second) if isinstance(c, ast.Call) and call_name(c) == "self._getInstance"]
+    need(len(ctor_calls) == 1, "Daemon.handleRequest: self._getInstance not called exactly once")
+    need(binds[0] in second.body, "Daemon.handleRequest: current_context.client is bound conditionally")
+    bound_first = binds[0].lineno < ctor_calls[0].lineno
+    return callback, classes, ast_sha(f), bound_first
 
 
 def thread_facts(tree, h, close_acts, nhook):
@@ -458,7 +468,7 @@ def gen_cleanup(tree):
     h = error_hierarchy(tree)
     close_acts, sha_close = conn_close_actions(tree)
     nhook, sha_hook = hook_calls(tree)
-    callback, classes, sha_hr = reraise_facts(tree)
+    callback, classes, sha_hr, bound_first = reraise_facts(tree)
     anc_sec = ancestors(h, "SecurityError")
     escapes_security = any(c in anc_sec and c != "Exception" or c == "Exception" for c in classes)
     th = thread_facts(tree, h, close_acts, nhook)
@@ -475,6 +485,8 @@ def gen_cleanup(tree):
     out += shape_text("thread_shape", th, escapes_security, callback)
     out += "(* Worker.run: no write to self.job after pool.notify_done(self) (a job dispatched to the just-idled worker is not overwritten) *)\n"
     out += "Definition worker_job_cleared_before_handback : bool := %s.\n" % cbool(th["job_cleared_first"])
+    out += "(* Daemon.handleRequest: current_context.client = conn precedes self._getInstance(obj, conn) *)\n"
+    out += "Definition ctx_client_bound_before_construction : bool := %s.\n" % cbool(bound_first)
     out += "(* multiplex server: `if not active:` branch of events;\n"
     out += "   except branches of handleRequest: %s *)\n" % "; ".join("%s -> %s" % ("|".join(c), "False" if b else "TRUE") for c, b in mx["handlers"])
     out += shape_text("mux_shape", mx, escapes_security, callback)
